@@ -448,3 +448,44 @@ func vReadOf(x []byte) {
 
 func VH_C13_read_1() { vReadOf(vPatternWords(1)) }
 func VH_C13_read_2() { vReadOf(vPatternWords(2)) }
+
+// Pack and Unpack append to a caller-supplied buffer: the prefix is kept, and what is appended does
+// not depend on what the buffer's spare capacity held before (a recycled, dirty buffer).
+func vIntoDirty(x []byte) {
+	k := 3
+	if vNondetBool() {
+		k = 0
+	}
+	dirty := vNondetBytesCap(k, k+40) // arbitrary bytes, also beyond len
+	var pre [3]byte
+	copy(pre[:], dirty)
+	p := Pack(dirty, x)
+	vReach("packed")
+	clean := Pack(nil, x)
+	vAssert(len(p) == k+len(clean), "C13.dirty.pack.length")
+	if len(p) == k+len(clean) {
+		for j := 0; j < k; j++ {
+			vAssert(p[j] == pre[j], "C13.dirty.pack.prefix-kept")
+		}
+		j := vNondetInt()
+		vAssume(j >= 0 && j < len(clean))
+		vAssert(p[k+j] == clean[j], "C13.dirty.pack.bytes-independent-of-buffer-history")
+	}
+	dirty2 := vNondetBytesCap(k, k+40)
+	copy(pre[:], dirty2)
+	y, err := Unpack(dirty2, clean)
+	vReach("unpacked")
+	vAssert(err == nil, "C13.dirty.unpack.no-error")
+	vAssert(len(y) == k+len(x), "C13.dirty.unpack.length")
+	if err == nil && len(y) == k+len(x) {
+		for j := 0; j < k; j++ {
+			vAssert(y[j] == pre[j], "C13.dirty.unpack.prefix-kept")
+		}
+		j := vNondetInt()
+		vAssume(j >= 0 && j < len(x))
+		vAssert(y[k+j] == x[j], "C13.dirty.unpack.bytes-independent-of-buffer-history")
+	}
+}
+
+func VH_C13_dirty_1() { vIntoDirty(vPatternWords(1)) }
+func VH_C13_dirty_2() { vIntoDirty(vPatternWords(2)) }
